@@ -52,6 +52,7 @@ type HarnessResult struct {
 	PathCap      bool
 	Timeout      bool
 	UnknownFeas  int
+	Merges       int
 	Samples      []*VecSample
 	Wall         float64
 }
@@ -63,6 +64,7 @@ type VecSample struct {
 }
 
 type Engine struct {
+	noMerging bool
 	prog    *ssa.Program
 	base    *Heap
 	globals map[*ssa.Global]int
@@ -80,6 +82,7 @@ type Engine struct {
 }
 
 type Worker struct {
+	subDepth int
 	e     *Engine
 	sol   *Solver
 	local []*State
@@ -132,6 +135,10 @@ func (e *Engine) Explore(init *State) {
 
 func (w *Worker) push(st *State) {
 	e := w.e
+	if w.subDepth > 0 {
+		w.local = append(w.local, st)
+		return
+	}
 	// donate to the shared queue when somebody is idle
 	e.qmu.Lock()
 	if e.idle > 0 && len(e.queue) < e.idle {
@@ -455,6 +462,9 @@ func (w *Worker) unwind(st *State) {
 	}
 	f := st.top()
 	if f.rk == retTop && len(f.defers) == 0 {
+		if st.sub {
+			panic(cutErr{"callee panics"})
+		}
 		// panic escapes the harness
 		w.escapedPanic(st)
 		panic(doneErr{})
@@ -814,6 +824,7 @@ func (w *Worker) popFrame(st *State, f *Frame, rv Value) {
 	st.frames = st.frames[:len(st.frames)-1]
 	switch f.rk {
 	case retTop:
+		st.retVal = rv
 		panic(doneErr{})
 	case retNormal:
 		c := st.top()
@@ -1501,20 +1512,17 @@ func (w *Worker) index(st *State, f *Frame, x *ssa.Index) Value {
 			return b[idx.C]
 		}
 		// symbolic index into array value: ite over scalar elements
-		var res *Term
-		for i := len(b) - 1; i >= 0; i-- {
+		vals := make([]*Term, len(b))
+		ks := make([]int64, len(b))
+		for i := range b {
 			t, ok := b[i].(*Term)
 			if !ok {
 				k := st.concreteInt(idx, "array value index")
 				return b[k]
 			}
-			if res == nil {
-				res = t
-			} else {
-				res = Ite(Eq(idx, Const(64, uint64(i))), t, res)
-			}
+			vals[i], ks[i] = t, int64(i)
 		}
-		return res
+		return iteRuns(idx, ks, vals)
 	}
 	panic(cutErr{fmt.Sprintf("index on %T", base)})
 }
